@@ -292,3 +292,51 @@ func runC07(r *Runner) {
 	r.Pkgs = ok
 	r.symx(ok)
 }
+
+// c08Repeat (C08, concrete, through the public API): the same sources generated from scratch in two
+// different directories and then twice more in place must give the same derived.gen.go bytes every time.
+// The fixtures are the ones whose registration order depends on what an earlier pass or run left behind:
+// nested derive calls, a flat and a nested call of one plugin, several plugins with helper functions.
+func c08Repeat(r *Runner) {
+	type fx struct{ name, src string }
+	var fxs []fx
+	for _, h := range c07RawHistories(r.Tier) {
+		fxs = append(fxs, fx{strings.ToLower(h.ID), h.Raw2})
+	}
+	fxs = append(fxs, fx{"multi", "type L struct {\n\tI int\n\tS string\n}\n\ntype T struct {\n\tA int\n\tL []*L\n\tM map[string]int\n\tP *L\n}\n\nfunc use(a, b *T) (bool, int, uint64, string) {\n\tderiveDeepCopy(a, b)\n\treturn deriveEqual(a, b), deriveCompare(a, b), deriveHash(a), deriveGoString(a)\n}\n\nfunc keys(m map[string]int) []string { return deriveSort(deriveKeys(m)) }\n"})
+	var rows []map[string]interface{}
+	for _, f := range fxs {
+		var outs [][]byte
+		var problems []string
+		for _, where := range []string{"a", "b"} {
+			rel := "vxfix/c08rep/" + where + "/" + f.name
+			dir := filepath.Join(r.S.Repo, rel)
+			writeFiles(dir, map[string]string{"x.go": "package " + f.name + "\n\n" + f.src})
+			runs := 1
+			if where == "a" {
+				runs = 3
+			}
+			for k := 0; k < runs; k++ {
+				if o, code, _ := runCmd(r.S.Repo, goEnv(), 2*time.Minute, r.S.Goderive, "./"+rel); code != 0 {
+					problems = append(problems, fmt.Sprintf("run %d in %s exits %d: %s", k+1, where, code, trunc(o, 200)))
+					break
+				}
+				data, _ := os.ReadFile(filepath.Join(dir, "derived.gen.go"))
+				outs = append(outs, data)
+			}
+		}
+		for k := 1; k < len(outs); k++ {
+			if !bytes.Equal(outs[0], outs[k]) {
+				problems = append(problems, fmt.Sprintf("output %d differs from the first from-scratch output (1-3: same directory, repeated in place; 4: another directory)", k+1))
+			}
+		}
+		rows = append(rows, map[string]interface{}{"fixture": f.name, "runs": len(outs), "problems": problems})
+		if len(problems) > 0 {
+			rel := "vxfix/c08rep/a/" + f.name
+			dir := saveReplay(r.S, r.Spec.ID, rel, &Model{Harness: "repeat_" + f.name}, strings.Join(problems, "; "))
+			r.violation(dir, fmt.Sprintf("repeated generation of fixture %s: %s", f.name, strings.Join(problems, "; ")))
+		}
+	}
+	r.Extra["repeat_runs"] = rows
+	r.stage(fmt.Sprintf("%d fixtures generated 4 times each (2 directories, 3 runs in place) and compared byte for byte", len(fxs)))
+}
